@@ -21,6 +21,7 @@ mcMsgKinds == { [key |-> "", attrs |-> <<>>], [key |-> "K", attrs |-> [a |-> "x"
                 [key |-> "K", attrs |-> [a |-> "xy", b |-> ""]], [key |-> "L", attrs |-> [b |-> "y"]] }
 mcPrefixPairs == {<<"", "">>, <<"x", "">>, <<"xy", "">>, <<"y", "">>,
                   <<"x", "x">>, <<"xy", "x">>, <<"xy", "xy">>, <<"y", "y">>}
+mcProjOfName == <<>>
 mcOps == {"CreateTopic", "DeleteTopic", "CreateSub", "DeleteSub", "Publish", "Pull", "Ack",
           "ModAck", "Nack", "SeekTime", "CreateSnap", "DeleteSnap", "SeekSnap", "DLSweep",
           "ExpireSubs", "Tick"} \cup PruneJobs
